@@ -153,6 +153,9 @@ def build_consistent(rng, root, skel, opts=None):
         for _ in range(rng.randint(1, 2)):
             if cands:
                 ignores.append(rng.choice(cands))
+    # hidden directories are skipped by the walk anyway; IGNOREing them is legal
+    hidden_dirs = [n['p'] for n in skel['nodes'] if n['t'] == 'd' and n.get('hidden')]
+    extra_ignores = [h for h in hidden_dirs if rng.random() < 0.4]
     ignores = sorted(set(ignores))
 
     def is_ignored(p):
@@ -261,7 +264,7 @@ def build_consistent(rng, root, skel, opts=None):
                                  rand_hashes(rng)))
             listed[f] = [by_dir[md][0]]
     # ---- IGNORE entries
-    for ig in ignores:
+    for ig in ignores + extra_ignores:
         md = nearest(os.path.dirname(ig))
         covering = [m for m in mdirs if mtext.comp_prefix(os.path.dirname(ig), m)]
         md = rng.choice(covering)
